@@ -276,7 +276,7 @@ func SignSlot(r *Rendered, slot *Slot, spec *SigSpec) error {
 	}
 	text := ElementString(sig)
 	if spec.NSCharRef {
-		text = strings.ReplaceAll(text, `xmldsig#"`, `xmldsig&#35;"`)
+		text = strings.ReplaceAll(text, `xmldsig#`, `xmldsig&#35;`) // every occurrence: namespace declaration and algorithm identifiers
 	}
 	r.Splice(off, text)
 	return nil
